@@ -15,7 +15,14 @@ Case format (JSON):
                                a scalar is an int, a float, a str, a bool or null (None)
    "np": [cols given to the pipeline as numpy arrays (dict-valued columns: every leaf); the dtype is numpy's own choice
           for the content (int64 / float64 / bool / <U..), object when the column holds a None or mixes str and numbers],
-   "call": bool (one batch through `make()(batch)`),  "malform": tag?}
+   "call": bool (one batch through `make()(batch)`),  "malform": tag?,
+   "carry": {"how": "iterate" | "fold" | "from_state", "cuts": [i, ..]}?   (round 10) the stream is consumed in several
+            steps that hand the aggregation state - with its per-slice entries - back to the code:
+            iterate:    `it = r.iterate(part0)`, then `it = r.iterate(part_i, state=it.agg_state)`, `.agg_result` of the last
+            fold:       `st = r.create_state(); st = r.update_state(st, b) for every batch; r.get_result(st)`
+            from_state: the batches as a SequenceDataSource; `next` x cuts[0], `it.state`, a fresh iterator `.from_state(..)`,
+                        (`next` x (cuts[1] - cuts[0]), `.state`, `.from_state` again), drained, `.agg_result`
+            model: Model/PipeAggCarry.lean / ResumeSliced.lean (driver `resumesliced`); theorems C02_carried_state & co}
 A mask template is "t" | "f" | "m<i>" (nested `== key` on feature column i, Python lists of bools) |
 "np<i>" (the same as a 1-D numpy bool array) | {"dict": [[key, template], ..]}.
 """
@@ -55,7 +62,11 @@ RULE = ('corpus (test-suite scenarios, finding witnesses), then a systematic swe
         'list / numpy / dict masks), streams of 0-6 batches of 0-4 rows, ~10% malformed (missing keys, misaligned features, duplicate '
         'names, arity mismatches, unhashable features); a typed world: the dtype-pair matrix (int / float / bool / str / object / 2-D / dict-leaf '
         'columns x list | ndarray x row slicer | numpy mask | list mask x int | float | str | bool | None replacement value, every combination '
-        'REQUIRED in every run) and random typed pipelines, observed through typed bag aggregates; non-trivial = at least one slicer and at least two distinct slice keys '
+        'REQUIRED in every run) and random typed pipelines, observed through typed bag aggregates; carried-in states (round 10): every systematic pipeline '
+        'with >= 2 batches x {iterate(rest, state=prev.agg_state), ChainedRunner.update_state fold, iterator.state / from_state mid-stream} x the hand-over '
+        'after every batch (every fifth with a second hand-over), then 500 random pipelines under random cuts incl. empty parts, same brute-force oracle over '
+        'the whole stream; 35 carry arms REQUIRED (each way x each slicer kind, handed-over state holds slice entries, slice only before / first seen after / '
+        'on both sides of the hand-over); non-trivial = at least one slicer and at least two distinct slice keys '
         'reported or an error kind predicted; distinct = distinct canonical case JSON')
 
 
@@ -398,9 +409,9 @@ def build_batches(case):
   return [{k: to_py(v, k in nps) for k, v in b.items()} for b in case['batches']]
 
 
-def build_transform(case, slicers=None):
+def build_transform(case, slicers=None, base=None):
   from ml_metrics._src.chainables import transform
-  t = transform.TreeTransform()
+  t = transform.TreeTransform() if base is None else base
   for i, a in enumerate(case['aggs']):
     out = a['out'][0] if len(a['out']) == 1 and a.get('bare_out', True) else tuple(a['out'])
     kw = dict(fn=make_agg(a), output_keys=out, disable_slicing=bool(a.get('noslice')))
@@ -467,7 +478,9 @@ def run_pipeline(case, slicers=None):
     try:
       t = build_transform(case, slicers)
       batches = build_batches(case)
-      if case.get('call'):
+      if case.get('carry'):
+        res = run_carried(case, t, batches, slicers)
+      elif case.get('call'):
         res = t.make()(batches[0])
       else:
         it = t.make().iterate(batches)
@@ -477,6 +490,44 @@ def run_pipeline(case, slicers=None):
       return dict(err=None, result=canon_result(res))
     except Exception as e:  # pylint: disable=broad-except
       return dict(err=err_kind(e), result=[])
+
+
+def carry_parts(case):
+  n = len(case['batches'])
+  cuts = [0] + sorted(min(max(int(c), 0), n) for c in case['carry']['cuts']) + [n]
+  return [(a, b) for a, b in zip(cuts, cuts[1:])]
+
+
+def run_carried(case, t, batches, slicers=None):
+  """the stream consumed in several steps, the aggregation state handed back to the code in between (public API only)"""
+  how = case['carry']['how']
+  spans = carry_parts(case)
+  if how == 'iterate':
+    r = t.make()
+    it = None
+    for a, b in spans:
+      it = r.iterate(batches[a:b]) if it is None else r.iterate(batches[a:b], state=it.agg_state)
+      for _ in it:
+        pass
+    return it.agg_result
+  if how == 'fold':
+    r = t.make()
+    state = r.create_state()
+    for b in batches:
+      state = r.update_state(state, b)
+    return r.get_result(state)
+  if how == 'from_state':
+    from ml_metrics._src.chainables import io, transform
+    mk = lambda: build_transform(case, slicers, base=transform.TreeTransform().data_source(io.SequenceDataSource(batches)))
+    it = mk().make().iterate()
+    for a, b in spans[:-1]:
+      for _ in range(b - a):
+        next(it)
+      it = mk().make().iterate().from_state(it.state)
+    for _ in it:
+      pass
+    return it.agg_result
+  raise ValueError(how)
 
 
 def run_impl(case):
@@ -507,6 +558,17 @@ def model_requests(case):
   batches = case['batches'][:1] if case.get('call') else case['batches']
   nps = set(case.get('np', ()))
   batches = [{k: _wire(v, k in nps) for k, v in b.items()} for b in batches]
+  if case.get('carry'):
+    how = case['carry']['how']
+    spans = carry_parts(case)
+    if how == 'from_state':
+      ops = []
+      for a, b in spans[:-1]:
+        ops += [['take', b - a], ['ckpt'], ['restore']]
+      return [dict(model='resumesliced', mode='history', stages=[dict(drop=None, aggs=aggs, slicers=slicers)],
+                   batches=batches, ops=ops, final=10 ** 6)]
+    return [dict(model='resumesliced', mode='carry' if how == 'iterate' else 'fold', aggs=aggs, slicers=slicers,
+                 parts=[batches[a:b] for a, b in spans])]
   return [dict(model='pipeagg', aggs=aggs, slicers=slicers, batches=batches)]
 
 
@@ -544,7 +606,7 @@ def _model_value(v):
 
 def model_obs(case, resps):
   r = resps[0]
-  res = [{'metric': e['metric'], 'slice': e['slice'], 'value': _model_value(e['value'])} for e in r['result']]
+  res = [{'metric': e['metric'], 'slice': e['slice'], 'value': _model_value(e['value'])} for e in r.get('result', [])]
   res.sort(key=lambda e: jdump([e['metric'], e['slice']]))
   return dict(err=r['err'], result=res)
 
@@ -1150,6 +1212,72 @@ def gen_fanout_dups(rng):
     yield dict(aggs=[mk_agg(rng, 'sumcount', ['x'], 0)], slicers=[sl], batches=batches, np=['d'])
 
 
+# ---- carried-in states (round 10): the same pipelines, the stream consumed in several steps
+
+CARRY_HOWS = ('iterate', 'fold', 'from_state')
+
+
+def add_carry(rng, case, how=None, cuts=None):
+  n = len(case['batches'])
+  if cuts is None:
+    cuts = sorted(rng.randrange(0, n + 1) for _ in range(rng.choice([1, 1, 1, 2, 3])))
+  case['carry'] = dict(how=how or rng.choice(CARRY_HOWS), cuts=list(cuts))
+  case.pop('call', None)
+  return case
+
+
+def gen_carried(rng, n_random):
+  """every systematic (slicer kind x aggregate kind) pipeline with >= 2 batches, each way of handing the state back, the
+  hand-over after every batch; then random pipelines (stacked aggregates, 0-3 slicers of the five kinds) under random cuts"""
+  i = 0
+  for case in gen_systematic(rng):
+    n = len(case['batches'])
+    if n < 2:
+      continue
+    for cut in range(1, n):
+      i += 1
+      c = dict(case, batches=list(case['batches']))
+      yield add_carry(rng, c, CARRY_HOWS[i % 3], [cut] if i % 5 else [cut, n])
+  done = 0
+  while done < n_random:
+    case = gen_random(rng) if rng.random() < 0.8 else gen_typed_random(rng)
+    if len(case['batches']) < 2:
+      continue
+    done += 1
+    yield add_carry(rng, case)
+
+
+def carry_features(case):
+  c = case['carry']
+  how = c['how']
+  spans = carry_parts(case)
+  f = {'carry:' + how, 'carry:parts:2' if len(spans) == 2 else 'carry:parts:3+'}
+  if any(a == b for a, b in spans):
+    f.add('carry:empty-part')
+  cut = spans[0][1]
+  if len(case['aggs']) > 1:
+    f.add('carry:stacked-aggs')
+  if any(a.get('noslice') for a in case['aggs']):
+    f.add('carry:disable_slicing')
+  for sl in case['slicers']:
+    kind = ('cross' if len(sl['keys']) > 1 else 'single') if sl['kind'] == 'default' else sl['kind']
+    f.add(f'carry:{how}:slicer:{kind}')
+    if sl['kind'] == 'mask' or all(a.get('noslice') for a in case['aggs']):
+      continue
+    per = _slice_keys_per_batch(case, sl)
+    before = set().union(*per[:cut]) if cut else set()
+    after = set().union(*per[cut:]) if cut < len(per) else set()
+    if before:
+      f.add(f'carry:{how}:handover-has-slice-entries')
+      if before - after:
+        f.add(f'carry:{how}:slice-only-before-handover')
+      if after - before:
+        f.add(f'carry:{how}:slice-first-seen-after-handover')
+      if before & after:
+        f.add(f'carry:{how}:slice-on-both-sides')
+  return f
+
+
 # ---- typed world: columns and replacement values of different dtypes (int / float / bool / str / object; 1-D, 2-D, dict leaves)
 
 T_COLS = {      # column -> (kind label, generator of one scalar, 2-D?)
@@ -1406,6 +1534,8 @@ def features_of(case):
         f.add('mask:yielded-twice')
     f.add('mode:replace' if sl.get('replace') is not None else 'mode:filter')
   f |= typed_features(case)
+  if case.get('carry'):
+    f |= carry_features(case)
   if case['slicers'] and len(case['batches']) >= 2:
     for sl in case['slicers']:
       if sl['kind'] != 'mask':
@@ -1453,6 +1583,11 @@ REQUIRED = ['aggs:1', 'aggs:2', 'aggs:3', 'slicers:0', 'slicers:1', 'slicers:2',
             'entry:__call__', 'malformed:missing_input', 'malformed:dup_out', 'malformed:dup_slice', 'malformed:too_many_out',
             'malformed:unhashable', 'malformed:missing_feature', 'agg:bag', 'agg:dictbag', 'typed:str-promote-class']
 REQUIRED += sorted({f'typed:{typed_label(c)}/{k}/{p}x{r}' for c, k, p, r in typed_matrix()})      # the dtype-pair matrix
+REQUIRED += ['carry:parts:2', 'carry:parts:3+', 'carry:empty-part', 'carry:stacked-aggs', 'carry:disable_slicing']
+REQUIRED += [f'carry:{h}' for h in CARRY_HOWS]
+REQUIRED += [f'carry:{h}:slicer:{k}' for h in CARRY_HOWS for k in ('single', 'cross', 'within', 'fn', 'mask')]
+REQUIRED += [f'carry:{h}:{k}' for h in CARRY_HOWS for k in ('handover-has-slice-entries', 'slice-only-before-handover',
+                                                            'slice-first-seen-after-handover', 'slice-on-both-sides')]
 
 
 def gen_cases(ctx):
@@ -1467,6 +1602,7 @@ def gen_cases(ctx):
   yield from counted(gen_systematic(rng))
   yield from counted(gen_fanout_dups(rng))
   yield from counted(gen_typed_matrix(rng))
+  yield from counted(gen_carried(rng, 500 if ctx.quick else 12000))
   n = 1200 if ctx.quick else 30000
   yield from counted(gen_typed_random(rng) for _ in range(n // 3))
   yield from counted(gen_random(rng) for _ in range(n))
